@@ -26,7 +26,7 @@ CONSTANTS MechName,      \* which mechanism record (see MechOf)
 
 VARIABLES desc,      \* [g -> [route, shape]]  constant along a behaviour
           mesh,      \* [g -> faces]           constant along a behaviour
-          grid,      \* [g -> [open, store, helper, chunked]]
+          grid,      \* [g -> [open, store, helper, chunked, src]]  (src: what the source supplied)
           exports,   \* sequence of export records
           tmplTopo,  \* keys added to BASE_GRID_TOPOLOGY_ATTRS since import
           tmplEdge,  \* keys added to EDGE_NODE_CONNECTIVITY_ATTRS since import
